@@ -96,7 +96,12 @@ def exc_info(e):
     for fs in traceback.extract_tb(tb):
         if fs.filename.startswith(H2_DIR):
             where = '%s.%s' % (fs.filename[len(H2_DIR) + 1:-3], fs.name)
+    try:
+        msg = str(e)
+    except Exception:  # noqa: BLE001
+        msg = '<unprintable>'
     return {'type': type(e).__name__,
+            'msg': msg,
             'h2': isinstance(e, h2.exceptions.H2Error),
             'proto': isinstance(e, h2.exceptions.ProtocolError),
             'code': code,
